@@ -75,6 +75,50 @@ def _index_lets(prog):
     return names
 
 
+def f15_possible(plan, violation, rec):
+    """The cheap half of the F15 predicate (no execution): could F15 explain this at all?"""
+    if plan.get("prop") != "C10":
+        return False
+    orders = violation.get("orders")
+    used = violation.get("override_used")
+    if used is None:
+        used = plan.get("override") or {}
+    if not orders:
+        return True
+
+    def a_before_l(o):
+        ia = o.find("A")
+        il = o.find("L")
+        return ia >= 0 and (il < 0 or ia < il)
+
+    if a_before_l(orders[0]) == a_before_l(orders[1]):
+        return False
+    prog = plan["texts"][0]["prog"]
+    declared = dict((n, v) for n, v in prog["lets"])
+    changed = {k for k, v in used.items() if k in declared and declared[k] != v}
+    return bool(changed & _index_lets(prog))
+
+
+CHEAP = {"f15_map_before_overriding_let": f15_possible}
+
+
+def surely_unlisted(prop, violation, plan):
+    """True when no listed finding can explain this violation, decided without executing
+    anything (used to pick which members of a group to re-examine first)."""
+    for f in load().get("findings", []):
+        if f["property"] != prop:
+            continue
+        m = f.get("match", {})
+        if "oracle" in m and m["oracle"] != violation["oracle"]:
+            continue
+        if "cls" in m and m["cls"] != violation["cls"]:
+            continue
+        fn = CHEAP.get(m.get("predicate"))
+        if fn is None or fn(plan, violation, None):
+            return False
+    return True
+
+
 @predicate("f15_map_before_overriding_let")
 def f15(plan, violation, rec):
     if plan.get("prop") != "C10":
